@@ -250,14 +250,14 @@ theorem revert_block_correct (dbr : Bool) (blk : BMap ARevert) (p0 before after 
         have : (fun k => (List.foldl (fun p e => p.setAcct e.1 (Option.map Info.withoutCode e.2)) after
             (revertBlockToPlain blk).accounts).slot a k) = fun k => after.slot a k := funext hacc
         rw [this, hlit]
-        exact hsl k
+        exact hsl.1 k
       · have hc' : (r.wipe || !r.storage.isEmpty) = false := by simpa using hc
         simp only [hc', Bool.false_eq_true, if_false] at hrow
         rw [slot_foldl_revrows _ _ _ hwrows _ _ _ (fun r' hr' => by rw [hrow] at hr'; cases hr'), hrow]
         simp only
         rw [hacc]
         simp only [Bool.or_eq_false_iff, Bool.not_eq_false', List.isEmpty_iff] at hc'
-        have := hsl k
+        have := hsl.1 k
         rw [hc'.1, hc'.2] at this
         simpa [revSlotV, BMap.get] using this
 
